@@ -63,6 +63,13 @@ func (c *specCtx) trBool(e ast.Expr) (string, error) {
 	return t.S, nil
 }
 
+// goal translates a clause that becomes an obligation and records the
+// source-level names it mentions (for counterexample presentation/replay).
+func (c *specCtx) goal(e ast.Expr) (string, error) {
+	c.fr.witness = map[string]string{}
+	return c.trBool(e)
+}
+
 func exprString(e ast.Expr) string {
 	return types.ExprString(e)
 }
@@ -242,9 +249,31 @@ func (c *specCtx) tryIdent(name string) (tv, bool) {
 }
 
 func (c *specCtx) ident(name string) (tv, error) {
+	t, err := c.ident0(name)
+	if err == nil && c.fr.witness != nil && t.S != "" {
+		switch name {
+		case "true", "false", "nil":
+		default:
+			if _, dup := c.fr.witness[name]; !dup {
+				c.fr.witness[name] = t.S
+			}
+		}
+	}
+	return t, err
+}
+
+func (c *specCtx) ident0(name string) (tv, error) {
 	fr := c.fr
 	if t, ok := c.bound[name]; ok {
 		return tv{t, nil}, nil
+	}
+	if fr.mapKV != nil {
+		switch name {
+		case "mapkey__":
+			return fr.mapKV[0], nil
+		case "mapval__":
+			return fr.mapKV[1], nil
+		}
 	}
 	switch name {
 	case "true":
